@@ -559,6 +559,47 @@ func (e *Env) call(x *ast.CallExpr) Val {
 			return Val{S: "true", T: types.Typ[types.Bool]}
 		}
 		return Val{S: "false", T: types.Typ[types.Bool]}
+	case "fnIs":
+		// fnIs(f, "pkg.Func$1"): the function value f is (a closure of) the named function
+		v := e.expr(x.Args[0])
+		key := e.strArg(x, 1)
+		fn := cx.w.Funcs[key]
+		if fn == nil {
+			e.fail(x, "fnIs: no function "+key)
+		}
+		cx.sortOf(fn.Signature)
+		cx.declUF("fnid", "(declare-fun fnid (Fn) Int)")
+		return Val{S: fmt.Sprintf("(= (fnid %s) %d)", v.S, cx.closureID(key)), T: types.Typ[types.Bool]}
+	case "capturedVar":
+		// capturedVar[T]("pkg.Func$1", "name", f): current value of the variable `name` captured by closure value f
+		key := e.strArg(x, 0)
+		vn := e.strArg(x, 1)
+		v := e.expr(x.Args[2])
+		fn := cx.w.Funcs[key]
+		if fn == nil {
+			e.fail(x, "capturedVar: no function "+key)
+		}
+		if e.heap == nil {
+			e.fail(x, "capturedVar in a heap-free spec function")
+		}
+		for i, fv := range fn.FreeVars {
+			if fv.Name() != vn {
+				continue
+			}
+			et := fv.Type().(*types.Pointer).Elem()
+			name := "clo_" + sanitize(key)
+			var sorts []string
+			for range fn.FreeVars {
+				sorts = append(sorts, cx.intSort())
+			}
+			cx.sortOf(fn.Signature)
+			cx.declUF(name, fmt.Sprintf("(declare-fun %s (%s) Fn)", name, strings.Join(sorts, " ")))
+			for j := range fn.FreeVars {
+				cx.declUF(fmt.Sprintf("%s_b%d", name, j), fmt.Sprintf("(declare-fun %s_b%d (Fn) %s)", name, j, cx.intSort()))
+			}
+			return Val{S: fmt.Sprintf("(select %s (%s_b%d %s))", e.heap(cx.cellKey(et)), name, i, v.S), T: et}
+		}
+		e.fail(x, "capturedVar: "+key+" does not capture "+vn)
 	case "isType":
 		// isType[*T](x): the dynamic type of interface value x is *T
 		v := e.expr(x.Args[0])
